@@ -17,6 +17,8 @@ const TOKENS: &[&str] = &["a", "b", "\\n", "^", "$", "\\b", "\\B", ".", "(?s:.)"
 struct Mode {
     crlf: bool,
     dotall: bool,
+    /// 0: the pattern as is; 1: -x (whole line); 2: -w (word)
+    wrap: u8,
 }
 
 fn build_matcher(pat: &str, mode: Mode) -> Option<RegexMatcher> {
@@ -26,11 +28,28 @@ fn build_matcher(pat: &str, mode: Mode) -> Option<RegexMatcher> {
     if mode.crlf {
         b.crlf(true).line_terminator(None);
     }
+    match mode.wrap {
+        1 => {
+            b.whole_line(true);
+        }
+        2 => {
+            b.word(true);
+        }
+        _ => {}
+    }
     b.build(pat).ok()
 }
 
 fn build_reference(pat: &str, mode: Mode) -> Option<regex::bytes::Regex> {
-    regex::bytes::RegexBuilder::new(pat)
+    // -x and -w as the flag documentation defines them
+    let wrapped = match mode.wrap {
+        1 => format!("^(?:{})$", pat),
+        2 => format!(r"\b{{start-half}}(?:{})\b{{end-half}}", pat),
+        _ => pat.to_string(),
+    };
+    // (the pattern itself must be valid on its own)
+    regex::bytes::RegexBuilder::new(pat).multi_line(true).crlf(mode.crlf).build().ok()?;
+    regex::bytes::RegexBuilder::new(&wrapped)
         .multi_line(true)
         .dot_matches_new_line(mode.dotall)
         .crlf(mode.crlf)
@@ -170,7 +189,16 @@ pub fn run(args: &Args) -> ! {
             }
         }
     }
-    let modes = [Mode { crlf: false, dotall: false }, Mode { crlf: false, dotall: true }, Mode { crlf: true, dotall: false }];
+    let modes = [
+        Mode { crlf: false, dotall: false, wrap: 0 },
+        Mode { crlf: false, dotall: true, wrap: 0 },
+        Mode { crlf: true, dotall: false, wrap: 0 },
+        // -x / -w wrappers (quick tier: for the patterns of up to two tokens)
+        Mode { crlf: true, dotall: false, wrap: 1 },
+        Mode { crlf: true, dotall: false, wrap: 2 },
+        Mode { crlf: false, dotall: false, wrap: 1 },
+    ];
+    let n_upto2 = all_patterns(2).len();
     let mut input_sets: BTreeMap<bool, Vec<Vec<u8>>> = BTreeMap::new();
     for crlf in [false, true] {
         let al: Vec<u8> = if crlf { vec![b'a', b'b', b'-', b'\n', b'\r'] } else { vec![b'a', b'b', b'-', b'\n'] };
@@ -202,7 +230,10 @@ pub fn run(args: &Args) -> ! {
         }
     }
     let ctxs: Vec<(usize, usize)> = tier.pick(vec![(0, 0), (1, 1)], vec![(0, 0), (1, 0), (0, 1), (1, 1)]);
-    let work: Vec<(usize, Mode)> = (0..pats.len()).flat_map(|p| modes.iter().map(move |&m| (p, m))).collect();
+    let work: Vec<(usize, Mode)> = (0..pats.len())
+        .flat_map(|p| modes.iter().map(move |&m| (p, m)))
+        .filter(|&(p, m)| m.wrap == 0 || tier == Tier::Thorough || p < n_upto2)
+        .collect();
     let mut total = Acc::default();
     par_fold(
         work.len(),
@@ -304,7 +335,7 @@ pub fn run(args: &Args) -> ! {
                                 finding,
                                 format!("{} | {:?} | {} | {:?} | {}", pat, mode, cfg.show(), st, esc(input)),
                                 json!({
-                                    "kind": "multiline-lines", "pattern": pat, "crlf": mode.crlf, "dotall": mode.dotall,
+                                    "kind": "multiline-lines", "pattern": pat, "crlf": mode.crlf, "dotall": mode.dotall, "wrap": mode.wrap,
                                     "cfg": cfg_json(cfg), "strategy": format!("{:?}", st), "input": esc(input),
                                     "delivered": show(&flat), "reference": show(&model), "error": err,
                                     "true_multi_line_strategy": is_multi,
@@ -345,7 +376,7 @@ pub fn run(args: &Args) -> ! {
     ev.set(
         "rule",
         format!(
-            "patterns: every token string of length 1..3 over {:?}, plus every length-4 token string containing an alternation and a token that can cross a line boundary (on the quick tier: inputs up to length 4, no context, slice strategy) (built with multi_line, as rg -U does; modes LF, LF+dotall, CRLF); inputs: every byte string over {{a,b,-,\\n}} (+\\r under CRLF) up to the length bound; x invert x (A,B) in {:?} x strategy (slice, fragmented reader; search_path without mmap for every 4th pattern); one Searcher per configuration reused across all inputs. Reference: iterate regex::bytes::Regex::find_at over the WHOLE input (pos = end, +1 after an empty match); a line is hit iff a match overlaps it (empty match: the line containing its position, or an unterminated last line at the very end; for a pattern that cannot match \\n under CRLF — searched line by line, outside the property's quantifier — a line is hit iff the pattern matches the line without its \\r\\n); context, separators, numbering, offsets and byte count by the grep model of C03. Compared: the flattened per-line event list. distinct_nontrivial = (pattern, mode, input) triples with at least one hit line.",
+            "patterns: every token string of length 1..3 over {:?}, plus every length-4 token string containing an alternation and a token that can cross a line boundary (on the quick tier: inputs up to length 4, no context, slice strategy) (built with multi_line, as rg -U does; modes LF, LF+dotall, CRLF, and CRLF -x, CRLF -w, LF -x); inputs: every byte string over {{a,b,-,\\n}} (+\\r under CRLF) up to the length bound; x invert x (A,B) in {:?} x strategy (slice, fragmented reader; search_path without mmap for every 4th pattern); one Searcher per configuration reused across all inputs. Reference: iterate regex::bytes::Regex::find_at over the WHOLE input (pos = end, +1 after an empty match); a line is hit iff a match overlaps it (empty match: the line containing its position, or an unterminated last line at the very end; for a pattern that cannot match \\n under CRLF — searched line by line, outside the property's quantifier — a line is hit iff the pattern matches the line without its \\r\\n); context, separators, numbering, offsets and byte count by the grep model of C03. Compared: the flattened per-line event list. distinct_nontrivial = (pattern, mode, input) triples with at least one hit line.",
             TOKENS, ctxs
         ),
     );
@@ -360,7 +391,7 @@ fn replay(path: &str) -> ! {
     let text = std::fs::read_to_string(path).unwrap_or_else(|_| machinery_error("cannot read replay"));
     let v: serde_json::Value = serde_json::from_str(&text).unwrap_or_else(|_| machinery_error("bad replay"));
     let pat = v["pattern"].as_str().unwrap_or("");
-    let mode = Mode { crlf: v["crlf"].as_bool().unwrap_or(false), dotall: v["dotall"].as_bool().unwrap_or(false) };
+    let mode = Mode { crlf: v["crlf"].as_bool().unwrap_or(false), dotall: v["dotall"].as_bool().unwrap_or(false), wrap: v["wrap"].as_u64().unwrap_or(0) as u8 };
     let cfg = crate::c03::cfg_from_json(&v["cfg"]);
     let input = unesc(v["input"].as_str().unwrap_or(""));
     let st = match v["strategy"].as_str() {
